@@ -204,20 +204,30 @@ def dec_pres(x):
     return ("nv", dec_nv(x[1]))
 
 
-def model_cells(m, cases, sel=0):
-    """cases: list of (octx or None, cell, mode) -> list of (text, result)"""
+def model_cells(m, cases, sel=0, chunk=40):
+    """cases: list of (octx or None, cell, mode) -> list of (text, result).  The cases run through the model as HISTORIES on
+    one CellParser state (CellHistory.cp_run, `chunk` calls each), as they run through one real CellParser."""
     reqs = []
-    for octx, cell, mode in cases:
-        oc = "()" if octx is None else "(" + enc_ctx(octx) + ")"
-        reqs.append(f"(116 1 {sel} {oc} {enc_cell(cell)} {mode})")
+    for k in range(0, len(cases), chunk):
+        calls = []
+        for octx, cell, mode in cases[k:k + chunk]:
+            oc = "()" if octx is None else "(" + enc_ctx(octx) + ")"
+            calls.append(f"({oc} {enc_cell(cell)} {mode})")
+        reqs.append(f"(116 5 {sel} ({' '.join(calls)}))")
     outs = m.ask_many(reqs)
     res = []
-    for o in outs:
+    for k, o in zip(range(0, len(cases), chunk), outs):
         x = parse_sexp(o)
-        if x == [999998] or x == [999997]:
-            res.append((None, ("err", "BADINPUT")))
-        else:
-            res.append((dec_str(x[0]), dec_pres(x[1])))
+        n = len(cases[k:k + chunk])
+        if x == [999998] or x == [999997] or len(x) != n:
+            # a call of the history cannot be decoded: ask one by one so that the others are still compared
+            for octx, cell, mode in cases[k:k + chunk]:
+                oc = "()" if octx is None else "(" + enc_ctx(octx) + ")"
+                y = parse_sexp(m.ask(f"(116 1 {sel} {oc} {enc_cell(cell)} {mode})"))
+                res.append((None, ("err", "BADINPUT")) if y in ([999998], [999997]) else (dec_str(y[0]), dec_pres(y[1])))
+            continue
+        for y in x:
+            res.append((dec_str(y[0]), dec_pres(y[1])))
     return res
 
 
@@ -797,6 +807,136 @@ def gen_sheet(rng, ctx, p_missing):
     return rows
 
 
+# ------------------------------------------------------------------ sheets inserted into sheets (Insert.v)
+BOOK_HEADER = HEADER + ["template_arguments"]
+
+
+def enc_seg(sg):
+    if sg[0] == "rows":
+        return "(0 (" + " ".join(enc_srow(r) for r in sg[1]) + "))"
+    return f"(1 {enc_cell(sg[1])} {enc_str(sg[2])} {enc_cell(sg[3])})"
+
+
+def gen_insert_book(rng, p_missing):
+    """main inserts A (and maybe B), A may insert B; every sheet starts with an unconditional literal message.
+    -> (templates: list of (name, argname or None, segs), main segs, main ctx)"""
+    cx = gen_ctx(rng, tame=True)
+    cx.setdefault("name", "Ann")
+
+    def arg_cell(c):
+        r = rng.random()
+        if r < 0.25:
+            return T(rng.choice(["LIT", "w", "Ann"]))
+        if r < 0.9:
+            return ("tmpl", [("out", gen_expr(rng, c, 1, p_missing))])
+        return ("tmpl", [("text", "a"), ("out", gen_expr(rng, c, 0, p_missing))])
+
+    def inc_cell(c):
+        r = rng.random()
+        if r < 0.6:
+            return T("")
+        if r < 0.75:
+            return T(rng.choice(["TRUE", "FALSE", "false", " false "]))
+        if r < 0.9:
+            return ("tmpl", [("out", gen_expr(rng, c, 1, p_missing))])
+        return ("native", gen_expr(rng, c, 1, p_missing))
+
+    def sheet(c, label, children):
+        segs = [("rows", [dict(kind="plain", inc=T(""), main=T("S " + label))])]
+        for _ in range(rng.choice([1, 2, 3])):
+            if children and rng.random() < 0.5:
+                segs.append(("insert", inc_cell(c), rng.choice(children), arg_cell(c)))
+            else:
+                segs.append(("rows", gen_sheet(rng, c, p_missing)))
+        if children and not any(sg[0] == "insert" for sg in segs):
+            segs.append(("insert", inc_cell(c), rng.choice(children), arg_cell(c)))
+        segs.append(("rows", [dict(kind="plain", inc=T(""), main=T("E " + label))]))
+        return segs
+
+    argB = rng.choice(["c1", "c1", None])
+    argA = rng.choice(["b1", "b1", None])
+    # the block's own context: its argument (a string); names of the inserting flows are unknown there, and the generator
+    # of expressions draws them among the missing ones
+    tB = ("B", argB, sheet({argB: "v"} if argB else {}, "B", []))
+    tA = ("A", argA, sheet({argA: "v"} if argA else {}, "A", ["B"] if rng.random() < 0.6 else []))
+    main = sheet(cx, "main", ["A", "A", "B"])
+    return [tA, tB], main, cx
+
+
+def model_book(m, templates, main, cx, sel=0):
+    ts = "(" + " ".join(f"({enc_str(n)} ({enc_str(a) if a else ''}) ({' '.join(enc_seg(sg) for sg in segs)}))" for n, a, segs in templates) + ")"
+    o = m.ask(f"(116 4 {sel} {enc_ctx(cx)} {ts} ({' '.join(enc_seg(sg) for sg in main)}))")
+    x = parse_sexp(o)
+    if x in ([999998], [999997]):
+        return None
+    emits = [dec_str(e[1]) for e in x[0] if e[0] == 2]
+    res = ("ok",) if x[1] == [0] else ("err", ERRNAMES.get(x[1][1], str(x[1][1])))
+    texts = []
+    for sh in x[2]:
+        segs = []
+        for sg in sh:
+            if sg[0] == 0:
+                segs.append(("rows", [(dec_str(a), dec_str(b)) for a, b in sg[1]]))
+            else:
+                segs.append(("insert", dec_str(sg[1]), dec_str(sg[2])))
+        texts.append(segs)
+    return emits, res, texts
+
+
+def book_csv(segs, texts, first_from_start):
+    buf = io.StringIO()
+    w = csv.writer(buf, lineterminator="\n")
+    w.writerow(BOOK_HEADER)
+    first = True
+    for sg, tx in zip(segs, texts):
+        if sg[0] == "rows":
+            for r, (inc, main) in zip(sg[1], tx[1]):
+                w.writerow(["", KINDS[r["kind"]][1], "start" if (first and first_from_start) else "", inc, r.get("var", ""), main, ""])
+                first = False
+        else:
+            w.writerow(["", "insert_as_block", "", tx[1], "", sg[2], tx[2]])
+            first = False
+    return buf.getvalue()
+
+
+def impl_book(files, cx):
+    """a real ContentIndexParser holding the templates; the main sheet compiled by FlowParser in the given context, as
+    _parse_flow does -> ('ok', messages) | ('err', kind, message)"""
+    import tablib
+    from rpft.converters import get_content_index_parser
+    from rpft.parsers.creation.flowparser import FlowParser
+    from rpft.rapidpro.models.containers import RapidProContainer
+
+    d = tempfile.mkdtemp(prefix="c16book")
+    try:
+        for name, text in files.items():
+            with open(os.path.join(d, name + ".csv"), "w", encoding="utf8", newline="") as f:
+                f.write(text)
+
+        def go():
+            parser = get_content_index_parser([d], "csv", None, [])
+            t = tablib.import_set(files["main"], format="csv")
+            fp = FlowParser(RapidProContainer(), "main", t, context=py_ctx(cx), content_index_parser=parser)
+            return fp.parse().render()
+        r = run_cli_mode(go)
+    finally:
+        shutil.rmtree(d, ignore_errors=True)
+    if r[0] == "ok":
+        return ("ok", flow_messages(r[1]))
+    return r
+
+
+def book_files(templates, main, texts):
+    ci = [["type", "sheet_name", "data_sheet", "data_row_id", "template_arguments", "new_name", "status"]]
+    files = {}
+    for (n, a, segs), tx in zip(templates, texts[:-1]):
+        ci.append(["template_definition", n, "", "", (a + ";;|") if a else "", "", ""])
+        files[n] = book_csv(segs, tx, False)
+    files["main"] = book_csv(main, texts[-1], True)
+    files["content_index"] = csv_text(ci)
+    return files
+
+
 # ------------------------------------------------------------------ end to end (create_flows)
 def e2e_run(files):
     """files: dict name -> csv text.  -> ('ok', {flow name: [messages]}) | ('err', kind)"""
@@ -1207,6 +1347,44 @@ def run(ctx):
         nontrivial.add(("sheet", csvtext))
     stats["generated_sheets"] = sdist
 
+    # ---------------------------------------------------------------- (a2') inserted sheets: Insert.run_book <-> FlowParser + ContentIndexParser
+    n_books = (1500 if thorough else 150) * scale
+    bdist = {"ok": 0, "err": 0, "unsupported": 0, "graph_error_outside_model": 0, "error_inside_an_inserted_sheet": 0, "inserts_reached": 0}
+    for _ in range(n_books if m else 0):
+        templates, main, bcx = gen_insert_book(rng, rng.choice([0.0, 0.0, 0.1, 0.3]))
+        mo = model_book(m, templates, main, bcx)
+        v.coverage["evaluations"] += 1
+        if mo is None:
+            ctx.disagree("model rejected the book", repr(main)[:300], "BADINPUT", "")
+            continue
+        emits, mres_, texts = mo
+        files = book_files(templates, main, texts)
+        ires = impl_book(files, bcx)
+        if mres_[0] == "err" and mres_[1] in ("UNSUPPORTED", "FUEL"):
+            bdist["unsupported"] += 1
+            continue
+        if ires[0] == "err" and ires[1] == "critical" and any(g in ires[2] for g in GRAPH_ERRORS):
+            bdist["graph_error_outside_model"] += 1
+            continue
+        bdist["ok" if mres_[0] == "ok" else "err"] += 1
+        entered = sum(1 for e in emits if e in ("S A", "S B"))
+        if entered:
+            bdist["inserts_reached"] += 1
+            if mres_[0] == "err" and entered > sum(1 for e in emits if e in ("E A", "E B")):
+                bdist["error_inside_an_inserted_sheet"] += 1
+        if mres_[0] == "ok":
+            if ires[0] != "ok" or ires[1] != emits:
+                ctx.disagree("book: produced messages", dict(files=files, ctx=bcx), repr(("ok", emits)), repr(ires))
+        elif ires[0] != "err":
+            ctx.disagree("book: model errs (an inserted sheet or the inserting one stops), implementation delivers", dict(files=files, ctx=bcx),
+                         repr(mres_), repr(ires))
+            # the model is the reading of the property here: a flow was delivered although instantiation hit an error
+            if mres_[1] == "Undefined":
+                fail("missing-name-renders", f"a sheet with inserted sheets: the model stops with an undefined name, the implementation delivers {ires[1]!r}",
+                     dict(fn="bookmodel", files=files, ctx=bcx))
+        nontrivial.add(("bookmodel", files["main"], files.get("A", "")))
+    stats["generated_books_with_inserted_sheets"] = bdist
+
     # ---------------------------------------------------------------- (a3) end to end through create_flows
     n_e2e = (400 if thorough else 40) * scale
     edist = {"ok": 0, "err": 0, "unsupported": 0}
@@ -1526,6 +1704,8 @@ def replay(rep):
     if r["fn"] == "sheetplanted":
         _, res = impl_sheet(r["csv"], r["ctx"])
         return res[0] == "err" if r["expect"] == "error" else (res[0] == "ok" and res[1] == r["expect"])
+    if r["fn"] == "bookmodel":
+        return impl_book(r["files"], r["ctx"])[0] == "err"
     if r["fn"] == "book":
         import c16_paths as P
         res = P.run_book(r["files"], r.get("api"))
